@@ -641,6 +641,8 @@ def rule_crossing_pass(chk, prog):
 def run(chk):
     prog = chk.load()
     chk.guard(rule_crossing_pass, chk, prog)
+    from .c04 import rule_list_walk_saves_next
+    chk.guard(rule_list_walk_saves_next, chk, prog)      # a walk cut short after a shape is deleted / moved: stale blocked edges (history != fresh router)
     chk.guard(rule_route_dist, chk, prog)
     from .c03 import rule_contains
     chk.guard(rule_contains, chk, prog)          # the incremental and the from-scratch producer of Router::contains agree (fresh router == history)
